@@ -22,9 +22,11 @@ import (
 	"io"
 	"os"
 	"reflect"
+	"regexp"
 	"runtime"
 	"strings"
 	"sync"
+	"time"
 
 	"pault.ag/go/debian/changelog"
 	"pault.ag/go/debian/control"
@@ -41,6 +43,7 @@ type c18Call struct {
 	EOFTog  bool
 	FailAt  int // -1 none
 	TruncAt int // -1 none
+	OnceAt  int // -1 none: a transient read error at this offset
 }
 
 type c18Result struct {
@@ -227,16 +230,23 @@ func c18Seed(t *rt.Tape, r *rt.Run, entry string) []byte {
 	return doc
 }
 
+var zoneRe = regexp.MustCompile(` [+-][0-9]{4}\n`)
+
 func c18Mutate(t *rt.Tape, data []byte) []byte {
 	out := append([]byte(nil), data...)
 	n := 1 + t.Draw(4, "mut.n")
-	tokens := []string{"(", ")", "[", "]", "<", ">", "|", ",", "${", "}", ":", "!", "=", ">=", "<<", " ", "\n", "\n\n", "\t", "\x00", "\xff\xfe", "~", "-", "+", "0", "999999999999999999999", "é", " -- ", "  ", ";", "urgency=", "(1.0)", " .\n", "#", "\r\n"}
+	tokens := []string{" CET", " EST", " UTC", " +0100", "(", ")", "[", "]", "<", ">", "|", ",", "${", "}", ":", "!", "=", ">=", "<<", " ", "\n", "\n\n", "\t", "\x00", "\xff\xfe", "~", "-", "+", "0", "999999999999999999999", "é", " -- ", "  ", ";", "urgency=", "(1.0)", " .\n", "#", "\r\n"}
 	for i := 0; i < n; i++ {
 		p := 0
 		if len(out) > 0 {
 			p = t.Draw(len(out)+1, "mut.pos")
 		}
-		switch t.Draw(7, "mut.op") {
+		switch t.Draw(8, "mut.op") {
+		case 7: // a numeric zone offset replaced by a zone abbreviation
+			if loc := zoneRe.FindIndex(out); loc != nil {
+				abbr := []string{" CET", " EST", " UTC", " CEST", " XYZ"}[t.Draw(5, "mut.abbr")]
+				out = append(append(append([]byte{}, out[:loc[0]]...), []byte(abbr+"\n")...), out[loc[1]:]...)
+			}
 		case 6: // repeat a field line with another spelling of its name and another value
 			ls := strings.SplitAfter(string(out), "\n")
 			li := t.Draw(len(ls), "mut.line")
@@ -288,7 +298,7 @@ func c18GenCalls(t *rt.Tape, r *rt.Run) []c18Call {
 	var calls []c18Call
 	var seeds [][]byte
 	for i := 0; i < n; i++ {
-		c := c18Call{Entry: c18Entries[t.Draw(len(c18Entries), "c18.entry")], FailAt: -1, TruncAt: -1}
+		c := c18Call{Entry: c18Entries[t.Draw(len(c18Entries), "c18.entry")], FailAt: -1, TruncAt: -1, OnceAt: -1}
 		seed := c18Seed(t, r, c.Entry)
 		seeds = append(seeds, seed)
 		switch t.Weighted([]int{3, 5, 1, 1}, "c18.inputkind") {
@@ -305,11 +315,13 @@ func c18GenCalls(t *rt.Tape, r *rt.Run) []c18Call {
 		if isStream(c.Entry) {
 			c.Chunk = []int{0, 1, 7, 64, 4096}[t.Draw(5, "c18.chunk")]
 			c.EOFTog = t.Bool(1, 3, "c18.eoftog")
-			switch t.Weighted([]int{8, 1, 1}, "c18.streamfault") {
+			switch t.Weighted([]int{8, 1, 1, 1}, "c18.streamfault") {
 			case 1:
 				c.FailAt = t.Draw(len(c.Input)+1, "c18.failat")
 			case 2:
 				c.TruncAt = t.Draw(len(c.Input)+1, "c18.truncat")
+			case 3:
+				c.OnceAt = t.Draw(len(c.Input)+1, "c18.onceat")
 			}
 		}
 		calls = append(calls, c)
@@ -327,6 +339,9 @@ func c18Reader(r *rt.Run, c c18Call, name string) *simio.Reader {
 	}
 	if c.TruncAt >= 0 {
 		rd.TruncateAt(c.TruncAt)
+	}
+	if c.OnceAt >= 0 {
+		rd.FailOnceAt(c.OnceAt)
 	}
 	return rd
 }
@@ -385,6 +400,17 @@ func runC18(r *rt.Run, tier string) {
 		if solo[i].Both != "" {
 			r.Violate("C18/value-and-error", key, "returned %s together with error %q (input %q)", solo[i].Both, clip(solo[i].Err, 100), clip(string(c.Input), 150))
 		}
+		if c.OnceAt >= 0 && solo[i].Err == "" {
+			// one read failed once (the stream went on): no error was reported, so
+			// the result must be the intact stream's
+			clean := c
+			clean.OnceAt = -1
+			ref := c18Solo(r, clean, fmt.Sprintf("intact%d", i))
+			if ref.Value != solo[i].Value || ref.Err != "" {
+				r.Violate("C18/fault-changed-the-result", key, "one read failed once at byte %d of %d and no error was reported, but the result differs from the intact stream's: %s vs %s (err %q)", c.OnceAt, len(c.Input), clip(solo[i].Value, 200), clip(ref.Value, 200), ref.Err)
+			}
+			r.Probe("transient-read-fault")
+		}
 		if c.FailAt >= 0 && solo[i].HitEIO && solo[i].Err == "" {
 			// The stream reported EIO and the call returned nil.  That is only
 			// wrong if the result differs from what the intact stream gives (a
@@ -399,7 +425,7 @@ func runC18(r *rt.Run, tier string) {
 				r.Probe("eio-after-the-call-had-all-it-needed")
 			}
 		}
-		if isStream(c.Entry) && c.FailAt < 0 {
+		if isStream(c.Entry) && c.FailAt < 0 && c.OnceAt < 0 {
 			// the outcome depends only on the bytes, not on how the stream hands them out
 			alt := c
 			alt.Chunk = []int{1, 0, 4096, 7}[t.Draw(4, "c18.altchunk")]
@@ -411,6 +437,17 @@ func runC18(r *rt.Run, tier string) {
 				}
 				r.Probe("same-bytes-other-delivery")
 			}
+		}
+		if c.FailAt < 0 && c.OnceAt < 0 && t.Bool(1, 4, "c18.altzone") {
+			// the outcome depends only on the input - not on the process time zone
+			saved := time.Local
+			time.Local = time.FixedZone([]string{"CET", "EST", "SIM"}[t.Draw(3, "c18.zonename")], []int{3600, -18000, 19800}[t.Draw(3, "c18.zoneoff")])
+			other := c18Solo(r, c, fmt.Sprintf("altzone%d", i))
+			time.Local = saved
+			if other.Value != solo[i].Value || other.Err != solo[i].Err {
+				r.Violate("C18/result-depends-on-process-time-zone", key, "the same input parsed under another process time zone: value=%s err=%q vs value=%s err=%q", clip(solo[i].Value, 200), solo[i].Err, clip(other.Value, 200), other.Err)
+			}
+			r.Probe("same-input-other-process-time-zone")
 		}
 		if solo[i].Err == "" {
 			r.Probe("call-succeeded")
@@ -535,5 +572,5 @@ func init() {
 		},
 		Assumptions: []string{"inputs are grammar-derived seeds under tape-driven mutation and raw bytes; coverage-guided fuzzing (named in the quantifier) is a different technique", "value-typed results (version.Version, structs filled through Unmarshal) are exempt from the value-or-error clause: the value always exists", "results are compared through their JSON rendering"},
 	})
-	propProbes["C18"] = []string{"same-bytes-other-delivery", "call-succeeded", "call-returned-error", "calls-interleaved-inside-parsers"}
+	propProbes["C18"] = []string{"transient-read-fault", "same-input-other-process-time-zone", "same-bytes-other-delivery", "call-succeeded", "call-returned-error", "calls-interleaved-inside-parsers"}
 }
